@@ -263,6 +263,8 @@ def r10_2(ck):
         out = []
         for n in A.walk_no_nested(f.node):
             if isinstance(n, ast.For) and isinstance(n.iter, ast.Name) and \
+                    isinstance(n.target, ast.Tuple) and len(
+                        n.target.elts) == 2 and \
                     local_kind(f.node, n.iter.id) == kind:
                 out.append(n)
         return out
@@ -539,7 +541,8 @@ def r10_4(ck):
                         lp.iter) and any(
                         a[0] == 'truthy' and a[1].replace(' ', '') ==
                         'starts_with(%s,%s)' % (key, param) for a in g) and \
-                        ('list(' in A.unparse(lp.iter))
+                        (isinstance(lp.iter, ast.Call) and A.call_name(
+                            lp.iter) in ('list', 'tuple', 'sorted', 'copy'))
         else:
             for c in A.calls_in(f.node, 'remove'):
                 if 'self._step_graph' in A.unparse(c.func):
@@ -692,16 +695,28 @@ def r10_6(ck):
     # the new paths are rooted at the *target*
     # roles: the node returned by add_node, and the path handed to it
     tv = sp = None
-    for s2 in A.walk_no_nested(mv.node):
-        if isinstance(s2, ast.Assign) and isinstance(
-                s2.value, ast.Call) and A.call_name(s2.value) == \
-                'add_node' and isinstance(s2.targets[0], ast.Name):
-            tv = s2.targets[0].id
-            sp = A.unparse(A.arg_of(s2.value, 0, 'path'))
+    for an_c in A.calls_in(mv.node, 'add_node'):
+        sp = A.unparse(A.arg_of(an_c, 0, 'path'))
+        par = getattr(an_c, '_parent', None)
+        if isinstance(par, ast.Assign) and isinstance(
+                par.targets[0], ast.Name):
+            tv = par.targets[0].id
+
+    def at_target(v):
+        for x in ast.walk(v):
+            if isinstance(x, ast.Call) and A.call_name(x) == 'path_for':
+                r = A.call_receiver(x)
+                if (tv and A.is_name(r, tv)) or (
+                        isinstance(r, ast.Call)
+                        and A.call_name(r) == 'add_node'):
+                    return True
+        return False
     tp = [d2 for lst in local_defs(mv.node).values() for d2 in lst
-          if tv and d2.value is not None and d2.kind == 'assign'
-          and '%s.path_for()' % tv in A.unparse(d2.value)]
-    ok = bool(tp) and all(sp in A.unparse(d2.value) for d2 in tp)
+          if d2.value is not None and d2.kind == 'assign'
+          and at_target(d2.value)]
+    ok = bool(tp) and sp is not None and all(
+        sp in A.unparse(d2.value).replace(
+            '.add_node(%s' % sp, '') for d2 in tp)
     ck.require(ok, 'R10.6', mv, tp[0].stmt if tp else 'target_path',
                'moved processes are reported under the target path plus '
                'the source key', None)
@@ -820,12 +835,9 @@ def r10_8(ck):
     st = c
     while not isinstance(st, ast.stmt):
         st = st._parent
-    if not (isinstance(st, ast.Assign) and isinstance(
-            st.targets[0], ast.Name)):
-        ck.fail('R10.8', mv, st, 'the node returned by add_node is not kept',
-                st)
-        return
-    tv = st.targets[0].id
+    # the node returned by add_node: kept in a local, or used directly
+    tv = st.targets[0].id if isinstance(st, ast.Assign) and isinstance(
+        st.targets[0], ast.Name) and st.value is c else None
     recv = A.unparse(A.call_receiver(c))
     parg = A.arg_of(c, 0, 'path')
     pname = A.params_of(an.node)[1]
@@ -844,7 +856,10 @@ def r10_8(ck):
                 a.args[0], ast.Tuple):
             continue
         pe = a.args[0].elts[0]
-        val = eval_path(mv.node, pe, a, {tv: t_loc})
+        env = {'@resolve': lambda rc: t_loc if rc is c else None}
+        if tv:
+            env[tv] = t_loc
+        val = eval_path(mv.node, pe, a, env)
         if val is None:
             continue
         n += 1
